@@ -76,6 +76,68 @@ func c42RunGit(dir string, args ...string) error {
 	return nil
 }
 
+var (
+	c42TmplOnce sync.Once
+	c42TmplDir  string
+	c42TmplErr  error
+)
+
+func c42CopyTree(src, dst string) error {
+	return filepath.Walk(src, func(p string, info os.FileInfo, err error) error {
+		if err != nil {
+			return err
+		}
+		rel, _ := filepath.Rel(src, p)
+		target := filepath.Join(dst, rel)
+		if info.IsDir() {
+			return os.MkdirAll(target, 0o755)
+		}
+		b, err := os.ReadFile(p)
+		if err != nil {
+			return err
+		}
+		return os.WriteFile(target, b, info.Mode().Perm())
+	})
+}
+
+// c42InitBare makes an empty bare repository at path. The system git creates one
+// template repository per test process (`git init --bare`); further repositories are file
+// copies of it, which saves two git processes per repository.
+func c42InitBare(path, remoteURL string) error {
+	c42TmplOnce.Do(func() {
+		base := os.Getenv("VERIF_SCRATCH")
+		if base == "" {
+			base = os.TempDir()
+		}
+		d, err := os.MkdirTemp(base, "c42-tmpl-")
+		if err != nil {
+			c42TmplErr = err
+			return
+		}
+		c42TmplDir = filepath.Join(d, "tmpl.git")
+		c42TmplErr = c42RunGit(d, "init", "-q", "--bare", c42TmplDir)
+	})
+	if c42TmplErr != nil {
+		return c42TmplErr
+	}
+	if err := c42CopyTree(c42TmplDir, path); err != nil {
+		return err
+	}
+	if remoteURL != "" {
+		// what `git remote add origin <url>` writes
+		f, err := os.OpenFile(filepath.Join(path, "config"), os.O_APPEND|os.O_WRONLY, 0o644)
+		if err != nil {
+			return err
+		}
+		_, err = fmt.Fprintf(f, "[remote \"origin\"]\n\turl = %s\n\tfetch = +refs/heads/*:refs/remotes/origin/*\n", remoteURL)
+		if cerr := f.Close(); err == nil {
+			err = cerr
+		}
+		return err
+	}
+	return nil
+}
+
 // c42NewStore creates an empty store of the given kind under a fresh scratch directory.
 func c42NewStore(t c42Skipper, kind string, g c42GitOpts) *c42Store {
 	t.Helper()
@@ -118,7 +180,7 @@ func c42NewStore(t c42Skipper, kind string, g c42GitOpts) *c42Store {
 			vh.Inconclusive(t, "git not found on PATH")
 		}
 		s.remote = filepath.Join(dir, "remote.git")
-		if err := c42RunGit(dir, "init", "-q", "--bare", s.remote); err != nil {
+		if err := c42InitBare(s.remote, ""); err != nil {
 			rm()
 			vh.Inconclusive(t, "%v", err)
 		}
@@ -130,10 +192,7 @@ func c42NewStore(t c42Skipper, kind string, g c42GitOpts) *c42Store {
 
 func (s *c42Store) newCacheRepo(t c42Skipper, name string) string {
 	p := filepath.Join(s.dir, name)
-	if err := c42RunGit(s.dir, "init", "-q", "--bare", p); err != nil {
-		vh.Inconclusive(t, "%v", err)
-	}
-	if err := c42RunGit(s.dir, "--git-dir", p, "remote", "add", "origin", s.remote); err != nil {
+	if err := c42InitBare(p, s.remote); err != nil {
 		vh.Inconclusive(t, "%v", err)
 	}
 	return p
